@@ -22,22 +22,24 @@ MANIFEST = dict(
     category="proof",
     text="proof (partial). Machine-checked compiler-correctness proof (Coq) for a faithful model of "
          "bytecode_interpreter.rs (compile_expression / compile_define_variable / compile_statement: slot resolution "
-         "local/global/ans/function value, jump offsets of conditionals, call frames with parameters and where-locals, "
-         "recursion, function values and callable calls, foreign calls, struct literals sorted by definition index "
-         "and emitted in reverse, field access, lists, string parts and JoinString, procedures) and of the vm.rs stack "
-         "machine against an independent big-step reference semantics. C09_compile_correct: for EVERY program of the "
-         "modelled language and every fuel, if compilation stays within the u16 ranges and the reference evaluation "
-         "(static binding; no stale function value is called) yields print output and a final value, the machine "
-         "running the compiled code halts with exactly that output and value. C09_compile_correct_static: the same for the plain static semantics when no function name is defined twice. "
-         "Named clauses: C09_field_order, "
-         "C09_list_order, C09_string_order, C09_arg_order, C09_innermost_binding; C09_no_stuck_partial (no panic / "
-         "error on such runs). The unrestricted statement is refuted for function values taken before a redefinition "
-         "(C09_funref_refuted; open finding). C09_errors_partial: runtime errors of the reference are errors of the same kind on the machine (struct "
-         "literals excluded, format specifiers assumed total). NOT proved: absence of panics "
-         "for all well-typed programs, u16 wrap-around. The model is tied to the code on every run: the model "
-         "compiler's output is compared instruction by instruction with the real compiler's (hook dump), and model "
-         "machine / reference evaluator / implementation results are compared three ways on generated well-typed "
-         "programs (the reference evaluator is the oracle).",
+         "local/global/ans/function value with the chunk index captured at creation, jump offsets of conditionals and "
+         "the CodeTooLarge check, call frames with parameters and where-locals, recursion, function values and callable "
+         "calls, foreign calls, struct literals sorted by definition index and emitted in reverse, field access, lists, "
+         "string parts and JoinString, procedures) and of the vm.rs stack machine against an independent big-step "
+         "reference semantics. C09_compile_correct: for EVERY program of the modelled language and every fuel, if "
+         "compilation stays within the u16 ranges (compile_ok) and the reference evaluation yields print output and a "
+         "final value, the machine running the compiled code halts with exactly that output and value; "
+         "C09_reference_deterministic: that value does not depend on the fuel. Named clauses: C09_field_order, "
+         "C09_list_order, C09_string_order, C09_arg_order, C09_innermost_binding. C09_errors_partial: runtime errors of "
+         "the reference are errors of the same kind on the machine (struct literals excluded, format specifiers assumed "
+         "total); C09_no_stuck_partial / C09_no_stuck_on_error_partial: no panic on runs whose reference outcome is a "
+         "value or an error. NOT proved: absence of panics for ALL well-typed programs (needs the type system of C02 "
+         "and a treatment of diverging runs, see design/vm.md). The two former findings (function values re-bound by a "
+         "redefinition; silent truncation of 16 bit jump offsets) are repaired in numbat and kept as regression "
+         "examples. The model is tied to the code on every run: the model compiler's output is compared instruction "
+         "by instruction with the real compiler's (hook dump), and model machine / reference evaluator / "
+         "implementation results are compared on generated well-typed programs and multi-input sessions (with "
+         "failing inputs that must be rolled back); the reference evaluator is the oracle.",
     design_ref="DESIGN.md §6 C09, design/vm.md",
     note="Trusted: Coq kernel + vm_compute; the hand ports Compile.v/Machine.v (validated every run by the opcode-level "
          "and result-level correspondence, not proved against Rust); quantity arithmetic, formatting and foreign "
@@ -46,7 +48,7 @@ MANIFEST = dict(
     technique="Coq forward-simulation proof (fuel induction, frame-generic invariant) + three-way model/implementation correspondence by vm_compute",
 )
 
-THEOREMS = ["C09_compile_correct", "C09_no_stuck_partial", "C09_no_stuck_on_error_partial", "C09_errors_partial",
+THEOREMS = ["C09_compile_correct", "C09_reference_deterministic", "C09_no_stuck_partial", "C09_no_stuck_on_error_partial", "C09_errors_partial",
             "C09_expr_simulation", "C09_list_order", "C09_arg_order", "C09_string_order", "C09_field_order",
             "C09_innermost_binding"]
 ALLOWED_AXIOMS = []
@@ -1084,7 +1086,7 @@ def run(chk):
     for c in load_corpus():
         cases.append((c["src"], c["coq"]))
         kinds.append("corpus")
-    nrand = 1000 if quick else 10000
+    nrand = 850 if quick else 10000
     feats = collections.Counter()
     gen_fail = 0
     for n in range(nrand):
